@@ -363,6 +363,13 @@ MC_BOM_THOROUGH = MC_BOM_QUICK + [
 ]
 
 
+# UTF-16 with the surrogate / pending-BMP states (pending U+0000 included: finding F7), both sinks
+MC_UTF16_QUERY = [
+    C('UTF-16BE', 'off', 'utf8', False, 2, [4, 5, 64], [0x00, 0x41, 0xD8, 0xDC]),
+    C('UTF-16LE', 'off', 'utf16', True, 2, [2, 3, 64], [0x00, 0x41, 0xD8, 0xDC]),
+]
+
+
 def run_mc_set(rep, binp, configs, what, module='MC_DecQ', kind='dec', export=True):
     """TLC exhaustive on Layer I x monitor for every configuration (up to 5 TLC instances at a time), then spec -> impl:
     the exported behaviours of all configurations are re-driven on the real code in one harness run, validated by the
@@ -585,7 +592,7 @@ def plan_C07(rep, seed, tier):
     rv(rep, binp, 'enc-cutsets', seed, tier, extra=['--cap', 'query', '--thin', '3' if tier == 'quick' else '1'], tag='enc-cutsets-query')
     rv(rep, binp, 'enc-cutsets', seed, tier, extra=['--cap', 'mixq', '--thin', '3' if tier == 'quick' else '1'], tag='enc-cutsets-mixq')
     rv(rep, binp, 'query-overflow', seed, tier)
-    mcq = (MC_CHUNKING_QUICK + MC_BOM_QUICK) if tier == 'thorough' else [MC_CHUNKING_QUICK[i] for i in (0, 2, 3, 7)] + [MC_BOM_QUICK[i] for i in (0, 2, 5)]
+    mcq = (MC_CHUNKING_QUICK + MC_BOM_QUICK) if tier == 'thorough' else [MC_CHUNKING_QUICK[i] for i in (0, 2, 3, 7)] + [MC_BOM_QUICK[i] for i in (0, 2, 5)] + MC_UTF16_QUERY
     run_mc_set(rep, binp, mcq, 'Layer I incl. the max_*_buffer_length formulas (MaxLen.tla): InvokeQueried issues every call with the formula value in '
                'every reachable state; the monitor budget conjunct (C07.insufficient) is part of NoViolation; replay of every (state, call) pair uses the REAL query and compares its value with the formula',
                export='steps')
